@@ -351,7 +351,7 @@ func init() {
 			stress := []string{"c", "s", "r", "p", "err", "ctx", "result", "chunk", "chunks", "first", "key", "def", "val", "ok", "res", "params", "provider", "args",
 				"rootGontainer", "interface_", "nilContainer", "implements", "interfaceType", "dependencyService", "dependencyValue", "dependencyTag", "dependencyProvider",
 				"newService", "concatenateChunks", "paramTodo", "getEnv", "getEnvInt", "getParam", "callProvider",
-				"_getEnv", "_getEnvInt", "_paramTodo", "_concatenateChunks", "_callProvider", "_", "Gontainer", "NewGontainer", "init", "main", "Container", "New", "gen", "Root", "i0_fmt", "i1_pk"}
+				"_getEnv", "_getEnvInt", "_paramTodo", "_concatenateChunks", "_callProvider", "_", "Gontainer", "NewGontainer", "init", "main", "Container", "New", "gen", "Root", "i0_fmt", "i1_pk", "fmt", "os", "errors", "strconv", "context", "reflect"}
 			idPositions := []struct {
 				id  string
 				set func(c *Cfg, x string)
